@@ -16,7 +16,7 @@ import coqemit as E
 
 ID = "C08"
 PROPS = "Props/C08.v"
-IMPORTS = ("From Coq Require Import NArith.\nFrom PV Require Import Lib.Common Gen.C08_Entropy Model.C08_World.\n"
+IMPORTS = ("From Coq Require Import NArith.\nFrom PV Require Import Lib.Common Gen.C08_Entropy Model.C08_World Gen.C08_Kernel Model.C08_SeedK.\n"
            "Import String.StringSyntax.\nDelimit Scope string_scope with string.")
 SHARD = 16
 LEVEL_TEXT = ("Coq theorems over (a) a world model {python stream, numpy stream, OS, explicit generators}: any program of calls whose "
@@ -500,7 +500,11 @@ def run_impl(case):
                "np_key": [int(x) for x in ns[1]], "np_pos": int(ns[2]), "np_gauss": int(ns[3]), "np_kind": str(ns[0])}
         ents = []
         for n in case["reqs"]:
-            g = prng.spawn(n) if case.get("sbits", 64) == 64 else prng.spawn(n, sbits=case["sbits"])
+            try:
+                g = prng.spawn(n) if case.get("sbits") is None else prng.spawn(n, sbits=case["sbits"])
+            except ValueError:
+                if not (isinstance(n, int) and n < 0): raise
+                ents.append(["rejected"]); continue          # a negative count: refused, observable
             gs = [g] if n is None else g
             ents.append([str(x.bit_generator.seed_seq.entropy) for x in gs])
             if n is None and isinstance(g, list): ents[-1] = ["list"]
@@ -584,8 +588,8 @@ def gen_cases(rng, tier):
         s = rng.getrandbits(b)
         seeds.append(-s if rng.random() < 0.1 else s)
     for s in seeds:
-        reqs = rng.choice([[None], [1], [0], [2, None], [None, 3, 1], []])
-        c = {"kind": "seedmodel", "seed": s, "reqs": reqs, "sbits": rng.choice([64, 64, 64, 32, 128, 33, 1])}
+        reqs = rng.choice([[None], [1], [0], [2, None], [None, 3, 1], [], [0, -1, 1], [-3, None]])
+        c = {"kind": "seedmodel", "seed": s, "reqs": reqs, "sbits": rng.choice([None, None, 64, 32, 128, 33, 1])}
         if rng.random() < 0.5: c["h"] = _rand_hist(rng)
         cases.append(c)
     # boundary of the spawn range: with 1-2 seed bits an off-by-one in randint(0, 2**sbits-1) shows within a few draws
@@ -637,14 +641,19 @@ def emit_case(case, out):
     if "exc" in out: return "false"
     k = case["kind"]
     if k == "seedmodel":
-        reqs = [1 if n is None else n for n in case["reqs"]]
+        # the kernel-built model (MK, assembled from the expressions regenerated from prng.py) is what is evaluated; requests the
+        # implementation refused must be refused by the generated guard, the others are answered by the model (which refuses itself
+        # where the generated guard says so: a disagreement either way is a failed case)
         if any(e == ["list"] for e in out["ents"]): return "false"
+        rej = [n for n, e in zip(case["reqs"], out["ents"]) if e == ["rejected"]]
+        reqs = [n for n, e in zip(case["reqs"], out["ents"]) if e != ["rejected"]]
+        ents = [e for e in out["ents"] if e != ["rejected"]]
         ok_meta = out["py_gauss"] and out["py_ver"] == 3 and out["np_gauss"] == 0 and out["np_kind"] == "MT19937" and out["np_unmoved_by_spawn"]
         k2 = "pk" if out["py_key2"] == out["py_key"] else E.lst(out["py_key2"], E.z)
-        return "(let pk := %s in %s && MT.seed_scenario_agree %s %s %s pk %d%%nat %s %d%%nat %s %s %d%%nat)" % (
-            E.lst(out["py_key"], E.z), E.b(ok_meta), E.z(case["seed"]), E.lst(reqs, E.nat), E.z(case["sbits"]),
+        return "(let pk := %s in %s && forallb MK.spawn_rejected %s && MK.seed_scenario_agree %s %s %s pk %d%%nat %s %d%%nat %s %s %d%%nat)" % (
+            E.lst(out["py_key"], E.z), E.b(ok_meta), E.lst(rej, E.z), E.z(case["seed"]), E.lst(reqs, lambda n: E.opt(n, E.z)), E.opt(case.get("sbits"), E.z),
             out["py_pos"], E.lst(out["np_key"], E.z), out["np_pos"],
-            E.lst2([[int(x) for x in l] for l in out["ents"]], E.z), k2, out["py_pos2"])
+            E.lst2([[int(x) for x in l] for l in ents], E.z), k2, out["py_pos2"])
     names = E.lst(_static_names(case["prog"]), E.s)
     if k == "repro":
         A, B = out["A"], out["B"]
@@ -670,8 +679,10 @@ def pred(case, out):
         if [int(v) for v in ns[1]] != out["np_key"] or int(ns[2]) != out["np_pos"] or out["np_gauss"] != 0:
             bad.append("numpy stream after seed(%d) is not numpy.random.seed(randint(0,2^32-1))" % case["seed"])
         want = []
+        sb = 64 if case.get("sbits") is None else case["sbits"]          # documented default: 64 bits
         for n in case["reqs"]:
-            want.append([str(r.randint(0, 2 ** case["sbits"] - 1)) for _ in range(1 if n is None else n)])
+            if n is not None and n < 0: want.append(["rejected"]); continue          # documented: n must be positive or zero
+            want.append([str(r.randint(0, 2 ** sb - 1)) for _ in range(1 if n is None else n)])
         if want != out["ents"]: bad.append("spawn(): stream seeds are not successive randint(0, 2^sbits-1) draws of the python stream")
         st2 = r.getstate()
         if list(st2[1][:624]) != out["py_key2"] or st2[1][624] != out["py_pos2"]: bad.append("python stream after spawn() differs from the reference")
@@ -728,7 +739,8 @@ def describe(case, out):
     d = {"kind": case["kind"], "raised": "exc" in out}
     if case["kind"] == "seedmodel":
         s = abs(case["seed"])
-        d["seed_words"] = max(1, (s.bit_length() + 31) // 32); d["sbits"] = case["sbits"]; d["negative"] = case["seed"] < 0
+        d["seed_words"] = max(1, (s.bit_length() + 31) // 32); d["sbits"] = case.get("sbits") or "default"; d["negative"] = case["seed"] < 0
+        d["rejected_requests"] = sum(1 for n in case["reqs"] if n is not None and n < 0)
         if "py_pos" in out: d["seed_rejections"] = (out["py_pos"] - 2) // 2
     else:
         d["len"] = len(case["prog"]); d["first_comp"] = case["prog"][0]["comp"]
@@ -751,7 +763,7 @@ def shrink(case, fails):
         for s in t["prog"]: s["par"] = {}
         if fails(t): cur = t
     elif cur.get("kind") == "seedmodel":
-        for key, val in (("h", []), ("reqs", [1]), ("sbits", 64)):
+        for key, val in (("h", []), ("reqs", [1]), ("sbits", None)):
             t = copy.deepcopy(cur); t[key] = val
             if fails(t): cur = t
     return cur
@@ -763,4 +775,6 @@ def translate(repo, gen_dir):
     n = T.selftest(scratch)                      # the translator must flag every hidden-source idiom of a synthetic module
     tab, info = T.translate(repo, gen_dir, all_static_names())
     info["translator_selftest_assertions"] = n
-    return [info]
+    # kernel expressions of prng.seed / prng.spawn / the pymoo seeds (Gen/C08_Kernel.v); fail closed
+    from translate import c08_kernel
+    return [info, c08_kernel.translate(repo, gen_dir)]
